@@ -94,6 +94,9 @@ ASSUMPTIONS = [
     "exactly representable in that type; small integers have non-integer surpluses); Function.__call__ accepts all of "
     "them (np.array(f_value)), so all clauses are demanded with the float64 reference; a violation that disappears "
     "when the same values are returned as python floats gets the suffix /only-for-non-float-function-values",
+    "every round-trip clause (nodal values, surpluses, integral, tensor-sum, direct operator call) is evaluated per output "
+    "component relative to that component's own magnitude: the components are hierarchised independently, so a third of "
+    "the cases gives the components different magnitudes (1, 1e-9 .. 1e-12, 1e3; class tiny-magnitude-component)",
     "the integral returned by integrate() is compared with reference surpluses (numpy solve) times the grid's stored "
     "basis integrals, which are themselves compared with numerical quadrature of the basis values",
     "basis objects are constructed the way the grids and the repository's tests construct them: strictly increasing "
@@ -346,6 +349,29 @@ def compare_nodal(out, sig, got, want, tol, scale, message):
         out.bad(sig, "%s: max deviation %.3g (relative %.3g, tolerance %.3g); entry %d: got %r expected %r"
                 % (message, err, rel, tol, j, got.reshape(-1)[j], want.reshape(-1)[j]))
     return rel
+
+
+def compare_components(out, sig, got, want, tol, axis, scales, message):
+    """compare_nodal per output component (axis = the component axis of both arrays), every component relative to
+    its OWN magnitude scales[o] - the components of a vector-valued function are hierarchised independently, so a
+    component of magnitude 1e-10 next to O(1) components must come back with the same relative accuracy.
+    One report (the first failing component); returns the largest relative error."""
+    import numpy as np
+    got = np.asarray(got, dtype=float)
+    want = np.asarray(want, dtype=float)
+    if got.shape != want.shape:
+        return compare_nodal(out, sig, got, want, tol, 1.0, message)
+    worst = 0.0
+    reported = False
+    for o in range(want.shape[axis]):
+        scratch = Outcome()
+        rel = compare_nodal(scratch, sig, np.take(got, o, axis=axis), np.take(want, o, axis=axis), tol, float(scales[o]),
+                            "%s [output component %d of %d, magnitude %.3g]" % (message, o, want.shape[axis], float(scales[o])))
+        worst = max(worst, rel)
+        if scratch.violations and not reported:
+            out.bad(*scratch.violations[0])
+            reported = True
+    return worst
 
 
 # ----------------------------------------------------------------------------------------------------------------
@@ -745,7 +771,7 @@ def random_points(cx, rng, m):
 VALUE_TYPES = ("float", "int", "bool", "int-array", "float32", "list", "mixed")
 
 
-def make_typed_table(cx, rng, nout, vscale, vtype):
+def make_typed_table(cx, rng, nout, vscale, vtype, cscale=None):
     """-> (V float64 reference (nout, n_1..n_dim), table point -> python list of exactly representable values).
     The values are drawn so that they are exact in the type the user function returns them in: small integers (their
     surpluses are non-integer as soon as one level-1 point exists: v_mid - (v_a + v_b)/2), 0/1, float32 numbers."""
@@ -769,6 +795,11 @@ def make_typed_table(cx, rng, nout, vscale, vtype):
         V = np.where(mask, Vi, V)
     else:
         V = rng.normal(size=shape) * vscale
+    if cscale is not None and vtype in ("float", "float32"):
+        # one magnitude per output component (e.g. 1, 1e-10, 1): exact powers-of-ten factors, float32 stays float32
+        V = V * np.array([float(c) for c in cscale[:nout]] + [1.0] * max(0, nout - len(cscale))).reshape([nout] + [1] * cx.dim)
+        if vtype == "float32":
+            V = V.astype(np.float32).astype(float)
     table = {}
     for idx in np.ndindex(*cx.shape):
         table[tuple(cx.xs[d][idx[d]] for d in range(cx.dim))] = [float(V[(o,) + idx]) for o in range(nout)]
@@ -859,7 +890,7 @@ def run_roundtrip(case, sub):
         if N == 0:
             out.cls("empty-grid")
             return False
-        V, table = make_typed_table(cx, rng, nout, vscale, vtype)           # a new nodal table in every round
+        V, table = make_typed_table(cx, rng, nout, vscale, vtype, case.get("cscale"))   # a new nodal table in every round
         if vtype == "float" and not force_float:
             f = FunctionCustom(_Table(table), output_dim=nout)
         else:
@@ -874,7 +905,11 @@ def run_roundtrip(case, sub):
         if S_lib.shape != (nout, N):
             out.bad(sub + "/surplus-shape", "%s: surplus array has shape %s, expected %s" % (cx.describe(), S_lib.shape, (nout, N)))
             return False
-        vmax = float(np.max(np.abs(V)))
+        vmax_o = [float(np.max(np.abs(V[o]))) + 1e-300 for o in range(nout)]
+        if min(vmax_o) <= 1e-8:
+            out.cls("tiny-magnitude-component(<=1e-8)")
+            if max(vmax_o) >= 1e-3:
+                out.cls("tiny-next-to-O(1)-components")
         # (a) interpolate(own surpluses) is the plain tensor sum of surplus * basis values, everywhere (no solve involved)
         pts = grid_points(cx)
         extra = random_points(cx, rng, 8)
@@ -883,10 +918,10 @@ def run_roundtrip(case, sub):
         E = [np.array([[float(bf(x[d])) for bf in cx.basis(d)] for x in allpts]) for d in range(cx.dim)]
         S_t = S_lib.reshape([nout] + cx.shape)
         ref_eval = tensor_eval(S_t, E)
-        sc = float(np.max(tensor_eval(np.abs(S_t), [np.abs(e) for e in E]))) + 1e-300
+        sc = np.max(tensor_eval(np.abs(S_t), [np.abs(e) for e in E]), axis=0) + 1e-300          # per component
         # tolerance 1e-11: both sides are the same sum in a different order (rounding seen 5e-16)
-        info_max(out, "interp_vs_tensor_sum_rel", compare_nodal(
-            out, "%s/interpolate-is-tensor-sum/%s" % (sub, cx.kind), got, ref_eval, 1e-11, sc,
+        info_max(out, "interp_vs_tensor_sum_rel", compare_components(
+            out, "%s/interpolate-is-tensor-sum/%s" % (sub, cx.kind), got, ref_eval, 1e-11, 1, sc,
             "%s: interpolate() at %d grid + %d random points vs sum of surplus*basis values" % (cx.describe(), len(pts), len(extra))))
         if not cond <= COND_SKIP:
             out.cls("ill-conditioned-skipped")
@@ -894,14 +929,14 @@ def run_roundtrip(case, sub):
         tol = tol_cond(cond)
         # (b) round trip: the nodal table comes back at all grid points
         want = np.moveaxis(V, 0, -1).reshape(N, nout)
-        rel = compare_nodal(out, "%s/nodal-values/%s-%s" % (sub, cx.family, cx.mode), got[:N], want, tol, vmax,
+        rel = compare_components(out, "%s/nodal-values/%s-%s" % (sub, cx.family, cx.mode), got[:N], want, tol, 1, vmax_o,
                             "%s: integrate() then interpolate(grid points), output length %d, cond %.2e" % (cx.describe(), nout, cond))
         info_max(out, "roundtrip_rel_err", rel)
         info_max(out, "roundtrip_err_over_tol", rel / tol)
         # (c) surpluses == numpy solution of the Kronecker collocation system
         S_ref = tensor_apply([np.linalg.inv(M) for M in mats], V)
-        smax = float(np.max(np.abs(S_ref))) + 1e-300
-        rel = compare_nodal(out, "%s/surpluses/%s-%s" % (sub, cx.family, cx.mode), S_t, S_ref, tol, smax,
+        smax_o = [float(np.max(np.abs(S_ref[o]))) + 1e-300 for o in range(nout)]
+        rel = compare_components(out, "%s/surpluses/%s-%s" % (sub, cx.family, cx.mode), S_t, S_ref, tol, 0, smax_o,
                             "%s: surpluses vs numpy solve of the collocation systems, cond %.2e" % (cx.describe(), cond))
         info_max(out, "surplus_err_over_tol", rel / tol)
         # (e) the returned integral is the reference surpluses times the stored basis integrals (which weight_clause
@@ -911,15 +946,15 @@ def run_roundtrip(case, sub):
         for d in range(cx.dim):
             ref_int = np.tensordot(ref_int, W[d], axes=(1, 0))
             abs_int = np.tensordot(abs_int, np.abs(W[d]), axes=(1, 0))
-        compare_nodal(out, "%s/integral/%s-%s" % (sub, cx.family, cx.mode), np.asarray(integral, dtype=float).reshape(-1),
-                      ref_int.reshape(-1), tol, float(np.max(abs_int)) + 1e-300,
+        compare_components(out, "%s/integral/%s-%s" % (sub, cx.family, cx.mode), np.asarray(integral, dtype=float).reshape(-1),
+                      ref_int.reshape(-1), tol, 0, abs_int.reshape(-1) + 1e-300,
                       "%s: integrate() return value vs reference surpluses times stored basis integrals" % cx.describe())
         # (d) the hierarchisation operator called directly (observe_at of the property) gives the same surpluses; one
         # operator object per grid object, kept over the rounds
         if id(cx) not in direct_op:
             direct_op[id(cx)] = (cx, HierarchizationLSG(cx.grid))
         direct = direct_op[id(cx)][1](np.array(want.T, dtype=float), [int(n) for n in cx.shape], cx.grid)
-        compare_nodal(out, "%s/direct-operator-call/%s" % (sub, cx.kind), direct, S_ref.reshape(nout, N), tol, smax,
+        compare_components(out, "%s/direct-operator-call/%s" % (sub, cx.kind), direct, S_ref.reshape(nout, N), tol, 0, smax_o,
                       "%s: HierarchizationLSG(grid)(values, numPoints, grid) vs numpy solve of the collocation systems" % cx.describe())
         return True
 
@@ -1641,6 +1676,13 @@ def _local_case(draw, tier, poly=False, maxdim=3, dim=None):
         case["out"] = draw(st.sampled_from([1, 2, 3]))
         case["vscale"] = draw(st.sampled_from([1.0, 1.0, 1e3, 1e-3]))
         case["vtype"] = draw(st.sampled_from(["float"] * 9 + list(VALUE_TYPES[1:])))
+        if draw(st.integers(0, 2)) == 0:
+            # one magnitude per output component: tiny components (1e-9 .. 1e-12) alone or next to O(1) components
+            cs = [draw(st.sampled_from([1.0, 1.0, 1e-9, 1e-10, 1e-12, 1e3])) for _ in range(case["out"])]
+            if not any(c <= 1e-9 for c in cs):
+                cs[draw(st.integers(0, case["out"] - 1))] = draw(st.sampled_from([1e-9, 1e-10, 1e-12]))
+            case["cscale"] = cs
+            case["vscale"] = 1.0
     return case
 
 
@@ -1709,6 +1751,13 @@ def _global_case(draw, tier, poly=False, maxdim=3, dim=None):
         case["out"] = draw(st.sampled_from([1, 2, 3]))
         case["vscale"] = draw(st.sampled_from([1.0, 1.0, 1e3, 1e-3]))
         case["vtype"] = draw(st.sampled_from(["float"] * 9 + list(VALUE_TYPES[1:])))
+        if draw(st.integers(0, 2)) == 0:
+            # one magnitude per output component: tiny components (1e-9 .. 1e-12) alone or next to O(1) components
+            cs = [draw(st.sampled_from([1.0, 1.0, 1e-9, 1e-10, 1e-12, 1e3])) for _ in range(case["out"])]
+            if not any(c <= 1e-9 for c in cs):
+                cs[draw(st.integers(0, case["out"] - 1))] = draw(st.sampled_from([1e-9, 1e-10, 1e-12]))
+            case["cscale"] = cs
+            case["vscale"] = 1.0
     return case
 
 
@@ -1969,6 +2018,13 @@ def roundtrip_fixed():
                         out=1, vscale=1.0, rng=4,
                         seq=[dict(kind="refine", splits=[[[2, 0.5]], [[1, 0.5], [5, 0.5]]]), dict(kind="relabel", rng=2),
                              dict(kind="back")]))
+    # vector-valued function with one component of magnitude 1e-10 / 1e-12 next to O(1) components
+    for fam, p, cs in (("lagrange", 2, [1.0, 1e-10, 1.0]), ("bspline", 3, [1e-12, 1.0]), ("lagrange", 3, [1e-9])):
+        res.append(dict(kind="global", family=fam, p=p, mode="boundary", a=[0.0, -1.0], len=[1.0, 3.0],
+                        trees=[complete_splits(2) + [[1, 0.5]], [[0, 0.5], [0, 0.5], [2, 0.5]]], max_level=11,
+                        out=len(cs), vscale=1.0, vtype="float", cscale=cs, rng=30))
+        res.append(dict(kind="global", family=fam, p=p, mode="noboundary", a=[2.0], len=[0.5],
+                        trees=[complete_splits(4)], max_level=11, out=len(cs), vscale=1.0, vtype="float", cscale=cs, rng=31))
     # function values of other types than float (user-defined Function subclass), one case per type
     for k, vt in enumerate(VALUE_TYPES[1:]):
         res.append(dict(kind="global", family=("lagrange", "bspline")[k % 2], p=3, mode="boundary", a=[0.0, -1.0],
@@ -1984,6 +2040,11 @@ def local_fixed():
                         paths=[[], [1, 0]], lv=[2, 3], out=2, vscale=1.0, rng=2))
     res.append(dict(kind="local", family="bspline", p=3, mode="noboundary", a=[0.0, 0.0], len=[1.0, 1.0],
                     paths=[[], []], lv=[4, 2], out=3, vscale=1.0, rng=3))
+    for fam, p, cs in (("lagrange", 2, [1.0, 1e-10, 1.0]), ("bspline", 3, [1e-12, 1.0]), ("bspline", 5, [1e-9])):
+        res.append(dict(kind="local", family=fam, p=p, mode="boundary", a=[-1.0, 0.0], len=[3.0, 1.0], paths=[[0], []],
+                        lv=[3, 2], out=len(cs), vscale=1.0, vtype="float", cscale=cs, rng=32))
+        res.append(dict(kind="local", family=fam, p=p, mode="boundary", a=[0.0], len=[1.0], paths=[[]],
+                        lv=[4], out=len(cs), vscale=1.0, vtype="float", cscale=cs, rng=33))
     for k, vt in enumerate(VALUE_TYPES[1:]):
         res.append(dict(kind="local", family=("bspline", "lagrange")[k % 2], p=3 - k % 2, mode="boundary", a=[-1.0, 0.0],
                         len=[3.0, 1.0], paths=[[1], []], lv=[2, 1], out=1 + (k + 1) % 3, vscale=1.0, vtype=vt, rng=20 + k))
